@@ -25,7 +25,7 @@ import (
 
 type op struct {
 	Name string
-	Ts   uint32
+	Ts   uint64
 }
 
 func (o op) String() string { return fmt.Sprintf("%s@%d", o.Name, o.Ts) }
@@ -98,7 +98,7 @@ func (e *exec) Body() {
 		// the value field carries the op id
 		var name string
 		var id int
-		var ts uint32
+		var ts uint64
 		fmt.Sscanf(string(buf), "%s %d %d", &name, &id, &ts)
 		e.recs[id].accepted = true
 	}
@@ -156,7 +156,7 @@ func (e *exec) Body() {
 
 type regIn struct {
 	name string
-	ts   uint32
+	ts   uint64
 }
 
 var model = porcupine.Model{
@@ -177,9 +177,9 @@ var model = porcupine.Model{
 		}
 		return out
 	},
-	Init: func() interface{} { return uint32(0) },
+	Init: func() interface{} { return uint64(0) },
 	Step: func(state, input, output interface{}) (bool, interface{}) {
-		s := state.(uint32)
+		s := state.(uint64)
 		in := input.(regIn)
 		acc := output.(bool)
 		if in.ts > s {
@@ -187,7 +187,7 @@ var model = porcupine.Model{
 		}
 		return !acc, s
 	},
-	Equal: func(a, b interface{}) bool { return a.(uint32) == b.(uint32) },
+	Equal: func(a, b interface{}) bool { return a.(uint64) == b.(uint64) },
 }
 
 func (e *exec) Check(r *vrt.Result) (string, string) {
@@ -310,6 +310,22 @@ func main() {
 			})
 		}
 	}
+	// name identity: the watermark is per name. One dispatcher, every ordered pair of names that a
+	// shortcut in the key computation could confuse (permutations of the same bytes, bytes that
+	// occur twice, case, a trailing dot, a common prefix or suffix): n1@2 then n2@1, the second
+	// point is the first of its name and must be accepted.
+	ident := []string{"ab", "ba", "x", "xyy", "yxy", "a.b", "b.a", "A.b", "a.b.", "a.bb", "aa.b"}
+	for _, n1 := range ident {
+		for _, n2 := range ident {
+			if n1 != n2 {
+				add([][]op{{{n1, 2}, {n2, 1}, {n1, 2}, {n2, 1}}}, 0)
+			}
+		}
+	}
+	// timestamps around the 32-bit boundary (the relay keeps timestamps as uint32)
+	for _, ss := range [][]op{{{"a", 4294967295}, {"a", 4294967295}}, {{"a", 4294967294}, {"a", 4294967295}}, {{"a", 100}, {"a", 4294967301}}} {
+		add([][]op{ss}, 0)
+	}
 	if !rep.Thorough() {
 		pairs(small, bound)
 	} else {
@@ -330,8 +346,11 @@ func main() {
 	rep.Assume = []string{
 		"interleavings at statement granularity inside validate.Ordered (vrt.YieldG before every statement), at synchronisation operations elsewhere; sequential consistency",
 		fmt.Sprintf("delay bound %d; scripts over alphabet %v, <=%d points per dispatcher", bound, alpha, maxLen),
+		fmt.Sprintf("name identity: one dispatcher, n1@2 n2@1 n1@2 n2@1 for every ordered pair of distinct names of %v", ident),
 	}
 	e1 := &kit.E1{Rep: rep, Scenarios: scns, Deadline: rep.Deadline(150*time.Second, 20*time.Minute)}
+	// a known finding is one script, not the oracle class: the signature names the scenario
+	e1.SigOf = func(scn, msg string) string { return strings.SplitN(msg, "\n", 2)[0] + " | " + scn }
 	cov := e1.Run()
 	if cov != nil {
 		cov["bound"] = bound
